@@ -43,6 +43,7 @@ def _worker(args):
     mod = importlib.import_module(f'ixv.props.{prop.lower()}')
     ctx = core.Ctx(prop, tier, seed, shard=shard, nshards=nshards)
     err = None
+    cov = _start_coverage(prop, tier, shard)
     try:
         if hasattr(mod, 'self_check') and shard == 0:
             mod.self_check()
@@ -53,6 +54,8 @@ def _worker(args):
         err = f"HarnessError: {e}"
     except Exception:
         err = core.format_exc()
+    finally:
+        _stop_coverage(cov, prop, ctx)
     return {
         'evaluations': ctx.evaluations,
         'nontrivial': sorted(ctx.nontrivial),
@@ -67,6 +70,76 @@ def _worker(args):
         'error': err,
         'shard': shard,
     }
+
+
+def _anchor_files(prop):
+    here = os.path.dirname(os.path.dirname(os.path.abspath(__file__)))
+    try:
+        with open(os.path.join(here, 'properties.jsonl')) as f:
+            for line in f:
+                p = json.loads(line)
+                if p['id'] == prop:
+                    return list(p['anchors']['files'])
+    except Exception:
+        pass
+    return []
+
+
+def _function_body_lines(path):
+    import ast
+    lines = set()
+    try:
+        tree = ast.parse(open(path).read())
+    except Exception:
+        return lines
+    for node in ast.walk(tree):
+        if isinstance(node, (ast.FunctionDef, ast.AsyncFunctionDef)):
+            for stmt in node.body:
+                for sub in ast.walk(stmt):
+                    if hasattr(sub, 'lineno'):
+                        lines.add(sub.lineno)
+    return lines
+
+
+def _start_coverage(prop, tier, shard):
+    """Line coverage of the property's anchor files (DESIGN 2.8), measured with the low-overhead sys.monitoring core on
+    shard 0 of the quick tier (or whenever IXV_COVERAGE=1).  Purely informational: a generator that stops reaching a line shows up."""
+    want = os.environ.get('IXV_COVERAGE')
+    if want == '0' or shard != 0 or (tier != 'quick' and want != '1'):
+        return None
+    try:
+        os.environ.setdefault('COVERAGE_CORE', 'sysmon')
+        import coverage
+        repo = os.environ.get('IXV_REPO', '/repo')
+        cov = coverage.Coverage(include=[os.path.join(repo, 'ixai', '*')], branch=False, data_file=None)
+        cov.start()
+        return cov
+    except Exception:
+        return None
+
+
+def _stop_coverage(cov, prop, ctx):
+    if cov is None:
+        return
+    try:
+        cov.stop()
+        repo = os.environ.get('IXV_REPO', '/repo')
+        out = {}
+        for rel in _anchor_files(prop):
+            path = os.path.join(repo, rel)
+            try:
+                _f, statements, _excl, missing, _fmt = cov.analysis2(path)
+            except Exception:
+                out[rel] = 'not imported during this run'
+                continue
+            body = _function_body_lines(path)      # module-level lines ran at import time, before the measurement started
+            st_body = [l for l in statements if l in body]
+            miss_body = [l for l in missing if l in body]
+            out[rel] = {'function_body_statements': len(st_body), 'executed': len(st_body) - len(miss_body),
+                        'missing_lines': miss_body[:40]}
+        ctx.extra['anchor_line_coverage'] = out
+    except Exception as e:  # never let instrumentation decide a check
+        ctx.extra['anchor_line_coverage'] = f'unavailable: {e!r}'
 
 
 def _bootstrap_worker():
